@@ -10,38 +10,6 @@ namespace ChessVerif.C09
 open ChessVerif Board Rules Bridge ChessVerif.Mate
 open Color Piece
 
-/-- smothered mate: Black Kh8 Rg8 Pg7 Ph7, White Nf7 Ka1, Black to move. -/
-def smothered : Board :=
-  mk [(63, black, king), (62, black, rook), (54, black, pawn), (55, black, pawn),
-      (53, white, knight), (0, white, king)] black 0
-
-set_option maxRecDepth 100000 in
-theorem smothered_hyp : smothered.valid = true ∧ Rules.epNormal (abs smothered) = true ∧
-    Rules.epSound (abs smothered) = true ∧ Rules.inCheck (abs smothered) smothered.stm = true := by decide +kernel
-
-set_option maxRecDepth 100000 in
-example : smothered.isCheckmate = true :=
-  (isCheckmate_iff smothered_hyp.1 smothered_hyp.2.1 smothered_hyp.2.2.1
-    (by rw [inCheck_iff (WFP_of_valid smothered_hyp.1)]; exact smothered_hyp.2.2.2)).2 (by decide +kernel)
-
-/-- a mate with a pinned defender: White Kg1 Bf2 Pg2 Ph2, Black Re1 Bb6 Kh8; Bf2 attacks the checking
-    rook but is pinned by the bishop on b6. -/
-def pinnedDefender : Board :=
-  mk [(6, white, king), (13, white, bishop), (14, white, pawn), (15, white, pawn),
-      (4, black, rook), (41, black, bishop), (63, black, king)] white 0
-
-set_option maxRecDepth 100000 in
-theorem pinnedDefender_hyp : pinnedDefender.valid = true ∧ Rules.epNormal (abs pinnedDefender) = true ∧
-    Rules.epSound (abs pinnedDefender) = true ∧
-    Rules.inCheck (abs pinnedDefender) pinnedDefender.stm = true := by decide +kernel
-
-set_option maxRecDepth 100000 in
-example : pinnedDefender.isCheckmate = true :=
-  (isCheckmate_iff pinnedDefender_hyp.1 pinnedDefender_hyp.2.1 pinnedDefender_hyp.2.2.1
-    (by rw [inCheck_iff (WFP_of_valid pinnedDefender_hyp.1)]; exact pinnedDefender_hyp.2.2.2)).2
-    (by decide +kernel)
-
-
 /-- double check with a flight square: White Ke1, Black Re8 Bb4 Kh8; only the king can move (Kd1/Kf1/Kf2). -/
 def doubleCheck : Board :=
   mk [(4, white, king), (60, black, rook), (25, black, bishop), (63, black, king)] white 0
